@@ -123,7 +123,7 @@ CHECKS = {
              "and typed, one triple per attribute, no plain triple) - i.e. never zero and never two representations. Proved about the rewrites: c07_formal_predicates_inverse / _kept (for every kind "
              "and every formal argument but the first, the reader files the writer's predicate under that argument; whole table, kernel-evaluated); "
              "c07_user_attr_writer / _reader / _element (for EVERY URI outside the PROV namespace both rewrites are the identity and nothing is "
-             "dropped - false for the substring reader that the fix: commit replaced); c07_int/str/bool/uri/datetime/qname/lang (each value kind "
+             "dropped - false for the substring reader that the fix: commit replaced); c07_int/str/bool/uri/datetime(_valid)/qname/lang (each value kind "
              "is written and read back as the same value, the empty language-tagged string included); t_base_classes (the reader's class table is "
              "PROV_BASE_CLS as regenerated); walk_length (cartesian expansion). Checked against the code in three channels on every run: the quads of "
              "the real encode_document vs the model's (blank nodes named by content); the real decode_document vs the model's on the same rdflib "
@@ -182,14 +182,16 @@ CHECKS = {
         design="§4.C13"),
     "C01": dict(
         text="Lean: encodeJson/decodeJson transcribe provjson.py on JSON trees; per-value round-trip theorems for every value kind "
-             "(c01_int, c01_float, c01_datetime, c01_uri, c01_str, c01_bool, c01_qname, c01_lang_literal, c01_typed_literal): decoding the "
+             "(c01_int, c01_float, c01_datetime / c01_datetime_valid, c01_uri, c01_str, c01_bool, c01_qname, c01_lang_literal, c01_typed_literal): decoding the "
              "encoded value and storing it again yields the same value at URI level with the same kind/datatype/language, under the "
              "explicit hypothesis that the names it mentions are readable in the reading scope (ReadsAs / StdNames, discharged for "
              "reachable managers by C03). Tied to /repo by three channels on every generated document: writer tree, reader on the same "
              "text, strict end-to-end comparison for all json.dump option sets.",
         note=A_COMMON + " Record/bundle multiplicity (anonymous-id allocation, arrays for repeated identifiers) is mirrored in the model "
              "and compared, not yet proved. Known finding C01-1: names not readable in their bundle's scope (C03-1) change URI. "
-             "A-JSONTEXT, A-LEX assumed.",
+             "A-JSONTEXT assumed; of A-LEX only float(repr(x)) = x remains an assumption: int(str(n)) = n is core's toInt?_repr and "
+             "parse(isoformat(t)) = t is proved for every valid date-time (Prov/Lemmas/Iso.lean: parseIso_iso), dateutil agreeing with the "
+             "model's parser on isoformat strings being checked by the correspondence.",
         technique="Lean 4 per-value round-trip proofs + writer/reader/end-to-end differential correspondence",
         design="§4.C01"),
     "C02": dict(
